@@ -92,6 +92,14 @@ func editJSON(root interface{}, p jpath, op string, val interface{}) (interface{
 				case "set":
 					c[idx] = val
 					return root, true
+				case "swap":
+					// exchange with the element at index val (same array)
+					j, ok := val.(int)
+					if !ok || j < 0 || j >= len(c) || j == idx {
+						return nil, false
+					}
+					c[idx], c[j] = c[j], c[idx]
+					return root, true
 				case "del":
 					ns = append(append([]interface{}{}, c[:idx]...), c[idx+1:]...)
 				case "dup":
@@ -245,6 +253,32 @@ func c19CallSet(cfg Cfg, fsys *vfs.FS, knownUUID string, report func(sig, what s
 		r.Initialize(knownUUID)
 		return db.Delete(r)
 	})
+	// every object the directory names: moved inside every index (update), then deleted
+	var others []string
+	for _, p := range fsys.Paths(dbRoot) {
+		base := p[strings.LastIndex(p, "/")+1:]
+		if !strings.HasSuffix(p, "/") && len(base) >= 36 && uuidRe.MatchString(base[:36]) && base[:36] != knownUUID {
+			others = append(others, base[:36])
+		}
+	}
+	for i, u := range others {
+		u, i := u, i
+		call("InsertOrUpdate(update other)", func() error {
+			r := NewRec((i+2)%NV, 4)
+			r.K = fmt.Sprintf("moved%d", i)
+			r.N = int64(900 + i)
+			r.Initialize(u)
+			return db.InsertOrUpdate(r)
+		})
+	}
+	for _, u := range others {
+		u := u
+		call("Delete(other)", func() error {
+			r := &Rec{}
+			r.Initialize(u)
+			return db.Delete(r)
+		})
+	}
 	call("Repair", func() error { return db.Repair(&Rec{}) })
 	call("Control2", func() error { return db.Control() })
 	call("DeleteAll", func() error { return db.DeleteAll(&Rec{}) })
@@ -273,6 +307,9 @@ func runC19(c *Ctx) {
 	bases := []baseSpec{
 		{Cfg{}, []Op{{Op: "ins", V: 1, K: 0}}},
 		{Cfg{Compress: true}, []Op{{Op: "ins", V: 2, K: 0}, {Op: "ins", V: 3, K: 2}}},
+		// four objects, three of them with equal values in most indexes, one deleted before
+		// (object ids with a hole)
+		{Cfg{}, []Op{{Op: "ins", V: 0, K: 0}, {Op: "del", Slot: 0}, {Op: "ins", V: 1, K: 0}, {Op: "ins", V: 1, K: 2}, {Op: "ins", V: 1, K: 3}, {Op: "ins", V: 0, K: 4}}},
 	}
 	if c.Tier == "thorough" {
 		bases = append(bases,
@@ -426,8 +463,13 @@ func runC19(c *Ctx) {
 				}
 				if len(jp) > 0 {
 					edits = append(edits, edit{jp, "del", nil})
-					if _, isIdx := jp[len(jp)-1].(int); isIdx {
+					if idx, isIdx := jp[len(jp)-1].(int); isIdx {
 						edits = append(edits, edit{jp, "dup", nil})
+						// exchange with every later element of the same array (an index that is no
+						// longer sorted, a tuple whose members changed places)
+						for j := idx + 1; j < idx+8; j++ {
+							edits = append(edits, edit{jp, "swap", j})
+						}
 					}
 				}
 			})
@@ -586,7 +628,7 @@ func runC19(c *Ctx) {
 	}
 	c.Sample(map[string]interface{}{"mutation_kinds": []string{"trunc", "subst", "tree", "tree2", "stray"}, "substitution_bytes": substBytes, "fields": fields, "operators": ops})
 	c.Meta(map[string]interface{}{
-		"rule":        "files: for every base database, schema.json and every object file: every truncation length, every single-byte substitution from a 12-byte set at every offset, every single JSON-tree mutation (each node replaced by each of 13 values, each key/element deleted, each array element duplicated; compressed files are mutated both as gzip bytes and as JSON then recompressed; thorough: all pairs of tree mutations inside the index subtree), stray files and sub-directories (names without a dot, without extension, uuid-like, directories in place of files); arguments: 32 field paths x 19 operators (padded and near-miss spellings included) x 26 value kinds, each also under limits {0,1,2,2^62,max} with One/AssignOne/AssignUnique/Collect on empty and non-empty collections under three index configurations, also as And/Or refinements. Each case: fresh handle, the public call set (first load, Control, Get, Exist, Count, All, 7 searches with Collect/Assign/One/And/Or, AssignIndex, inserts, update, batch, Delete, Repair, DeleteAll, Create, Close), every call under recover. Oracle: no panic, no hang (30 s wall watchdog per case, reported as a hang), no objects from a search that reported an error. states = distinct mutated directories; non-trivial = all but the unmodified control case.",
+		"rule":        "files: for every base database, schema.json and every object file: every truncation length, every single-byte substitution from a 12-byte set at every offset, every single JSON-tree mutation (each node replaced by each of 13 values, each key/element deleted, each array element duplicated, each pair of elements of an array exchanged; compressed files are mutated both as gzip bytes and as JSON then recompressed; thorough: all pairs of tree mutations inside the index subtree), stray files and sub-directories (names without a dot, without extension, uuid-like, directories in place of files); arguments: 32 field paths x 19 operators (padded and near-miss spellings included) x 26 value kinds, each also under limits {0,1,2,2^62,max} with One/AssignOne/AssignUnique/Collect on empty and non-empty collections under three index configurations, also as And/Or refinements. Each case: fresh handle, the public call set (first load, Control, Get, Exist, Count, All, 7 searches with Collect/Assign/One/And/Or, AssignIndex, inserts, update and Delete of every object the directory names, batch, Repair, DeleteAll, Create, Close), every call under recover. Oracle: no panic, no hang (30 s wall watchdog per case, reported as a hang), no objects from a search that reported an error. states = distinct mutated directories; non-trivial = all but the unmodified control case.",
 		"bases":       len(bases),
 		"assumptions": []string{"the documented misuse of Assign/AssignIndex targets is not exercised", "one mutation per file (thorough: two inside the index subtree)"},
 	})
